@@ -310,6 +310,9 @@ func (x *run) checkGone(rs *repState, ns, id string, remotes []string, before *f
 			if _, err := r.Cache.Bugs().ResolveExcerpt(entity.Id(id)); err == nil {
 				x.violate("cache-entry-survived", "%s: the cache of %s still has an excerpt for the removed bug %s", when, r.Name, id[:7])
 			}
+			if _, err := r.Cache.Bugs().Resolve(entity.Id(id)); err == nil {
+				x.violate("still-resolvable", "%s: removed bug %s still resolves by its id through the cache of %s", when, id[:7], r.Name)
+			}
 			if _, err := r.Cache.Bugs().ResolvePrefix(id[:10]); err == nil {
 				x.violate("still-resolvable", "%s: removed bug %s still resolves by prefix on %s", when, id[:7], r.Name)
 			}
@@ -344,6 +347,9 @@ func (x *run) checkGone(rs *repState, ns, id string, remotes []string, before *f
 		} else {
 			if _, err := r.Cache.Identities().ResolveExcerpt(entity.Id(id)); err == nil {
 				x.violate("cache-entry-survived", "%s: the cache of %s still has an excerpt for the removed identity %s", when, r.Name, id[:7])
+			}
+			if _, err := r.Cache.Identities().Resolve(entity.Id(id)); err == nil {
+				x.violate("still-resolvable", "%s: removed identity %s still resolves by its id through the cache of %s", when, id[:7], r.Name)
 			}
 		}
 	} else {
